@@ -23,7 +23,10 @@ elsewhere; names use the innermost binding.  The Lean model of the path (Model/P
 `stale_map_counterexample`) is compared with `error.path` and with the readers for every error.
 Family `same`: the same local name in the target namespace, in no namespace and in a foreign namespace interleaved among
 the siblings (position = index among the siblings with the same expanded name).  Family `inh11`: XSD 1.1 inheritable
-attributes ("a single fault is always reported", finding C19-F3 = C04-F5).
+attributes on elements of every content kind (simple content, empty, mixed, element-only) x every fault position relative to
+the carrier (its own text, its own attributes, the inheritable attribute itself, its children, its descendants), also with a
+validation_hook that answers a mode (both make raw_decode continue in a COPY of the validation context); an error without
+an element or without a path is always a failure (C19-F3 = C04-F5 is fixed by 38d1916: no matcher remains).
 
 Fault localisation as a theorem (`single_fault_localised`, `observed_fault_localised`, Props/C19.lean): the
 validator is modelled as a compositional `Val` (Model/Localise.lean).  The run ties it to the code as follows:
@@ -203,14 +206,23 @@ SAME_XSD = f'''<xs:schema xmlns:xs="http://www.w3.org/2001/XMLSchema" targetName
 
 # XSD 1.1 inheritable attributes (elements.py:716-723 copies the validation context below an element that carries one)
 INH_XSD = '''<xs:schema xmlns:xs="http://www.w3.org/2001/XMLSchema">
+ <xs:attributeGroup name="A"><xs:attribute name="lang" type="xs:language" inheritable="true"/>
+  <xs:attribute name="n" type="xs:int"/></xs:attributeGroup>
+ <xs:complexType name="S"><xs:simpleContent><xs:extension base="xs:int"><xs:attributeGroup ref="A"/></xs:extension>
+  </xs:simpleContent></xs:complexType>
+ <xs:complexType name="Z"><xs:attributeGroup ref="A"/></xs:complexType>
+ <xs:complexType name="M" mixed="true"><xs:sequence>
+   <xs:element name="b" type="xs:int" minOccurs="0" maxOccurs="unbounded"/><xs:element name="s" type="S" minOccurs="0"/>
+  </xs:sequence><xs:attributeGroup ref="A"/></xs:complexType>
+ <xs:complexType name="G"><xs:sequence>
+   <xs:element name="b" type="xs:int"/><xs:element name="s" type="S" minOccurs="0" maxOccurs="unbounded"/>
+   <xs:element name="z" type="Z" minOccurs="0"/><xs:element name="m" type="M" minOccurs="0"/>
+   <xs:element name="g" type="G" minOccurs="0" maxOccurs="unbounded"/>
+  </xs:sequence><xs:attributeGroup ref="A"/></xs:complexType>
  <xs:element name="r"><xs:complexType><xs:sequence>
-   <xs:element name="a" type="xs:int" maxOccurs="unbounded"/>
-   <xs:element name="g" minOccurs="0" maxOccurs="unbounded"><xs:complexType><xs:sequence>
-      <xs:element name="b" type="xs:int"/></xs:sequence>
-     <xs:attribute name="lang" type="xs:language" inheritable="true"/><xs:attribute name="n" type="xs:int"/>
-    </xs:complexType></xs:element>
-  </xs:sequence><xs:attribute name="lang" type="xs:language" inheritable="true"/><xs:attribute name="n" type="xs:int"/>
- </xs:complexType></xs:element>
+   <xs:element name="a" type="xs:int" maxOccurs="unbounded"/><xs:element name="s" type="S" minOccurs="0" maxOccurs="unbounded"/>
+   <xs:element name="g" type="G" minOccurs="0" maxOccurs="unbounded"/>
+  </xs:sequence><xs:attributeGroup ref="A"/></xs:complexType></xs:element>
 </xs:schema>'''
 
 
@@ -685,12 +697,8 @@ def known_match(case: dict, detail: dict) -> Optional[str]:
     if detail.get('kind') == 'path' and (detail.get('namespaces') or {}).get('') and detail.get('nons_step') \
             and not detail.get('selected') and 'rendered' in detail:
         return 'C19-F1'                           # `renders`: a single name
-    # C19-F3: XSD 1.1, the fault is reported by an element at or below one that carries an inheritable attribute: the
-    # error goes to the `errors` list of a copied validation context and is lost (validation.py:178-195 __copy__,
-    # elements.py:716-723); exact: only the family with inheritable attributes, only the cases whose generator
-    # says that the reporting element's context is a copy, only the outcome "no error at all"
-    if detail.get('kind') == 'valid' and case.get('form') == 'inh11' and case.get('inheritable_above') is True:
-        return 'C19-F3'
+    # (C19-F3 = C04-F5, errors lost in a copied validation context, is fixed by 38d1916: no matcher remains, a single
+    # fault that is reported valid is a violation)
     # C19-F2: the content model of the damaged node's parent is broken by the fault, the schema family has a wildcard
     # beside a same-named declaration, and every out-of-zone error lies at or below a *sibling* of the damaged node
     # (the siblings are re-matched by name once the model is broken, groups.py:1013-1041).
@@ -804,15 +812,31 @@ class Tables:
         return {'d0': used[id(root)], 'own': own_rows, 'gov': gov_rows}
 
 
-def validate_observed(form_schema, source, tabs: Tables):
-    """iter_errors with the public validation_hook recording the declaration used for every element"""
+def validate_observed(form_schema, source, tabs: Optional[Tables], lax_for: Optional[set] = None):
+    """iter_errors with the public validation_hook recording the declaration used for every element.  `lax_for`: ids of
+    the elements for which the hook answers 'lax' (None = every element when the set is None and ... see `hook_set`):
+    a hook that returns a validation mode makes XsdElement.raw_decode continue in a COPY of the validation context
+    (elements.py:629-636); with validation='lax' already in force the outcome must be the same"""
     used: dict = {}
 
     def hook(elem, xsd_element):
-        used[id(elem)] = tabs.decl_id(xsd_element)
-        return False
+        if tabs is not None:
+            used[id(elem)] = tabs.decl_id(xsd_element)
+        return 'lax' if lax_for is not None and (not lax_for or id(elem) in lax_for) else False
     errors = list(form_schema.iter_errors(source, validation_hook=hook))
     return errors, used
+
+
+def hook_set(root, mode: Optional[str], damaged: Optional[tuple]) -> Optional[set]:
+    """None = the hook never answers a mode; empty set = for every element; else the ids of the chosen elements:
+    'near' = the damaged node and its parent, 'chain' = the damaged node and all its ancestors"""
+    if not mode:
+        return None
+    if mode == 'all' or damaged is None:
+        return set()
+    ps = [damaged, damaged[:-1]] if mode == 'near' else [damaged[:k] for k in range(len(damaged) + 1)]
+    out = {id(x) for x in (at_elem_opt(root, p) for p in ps) if x is not None}
+    return out or set()
 
 
 def py_in_zone(damaged: tuple, p: tuple) -> bool:
@@ -834,8 +858,10 @@ def run_case(ctx: Ctx, case: dict, xml: str, form: str, parser: str, damaged: Op
     root = source.root
     sch = sch or schema(form)
     obs = None
-    if tabs is not None:
-        errors, used = validate_observed(sch, source, tabs)
+    if tabs is not None or case.get('hook'):
+        errors, used = validate_observed(sch, source, tabs, hook_set(root, case.get('hook'), damaged))
+        if case.get('hook'):
+            ctx.count('validation_hook answers a mode (context copy): ' + case['hook'])
     else:
         errors = list(sch.iter_errors(source))
     ctx.count(f'errors per case:{min(len(errors), 4)}' + ('+' if len(errors) >= 4 else ''))
@@ -864,11 +890,16 @@ def run_case(ctx: Ctx, case: dict, xml: str, form: str, parser: str, damaged: Op
     for e in errors:
         ctx.count('error class:' + type(e).__name__)
         if e.elem is None:
-            ctx.failure('validation error without an element', case, {'reason': str(e.reason)})
+            ctx.failure('validation error without an element (and so without a path: no reader can locate it)', case,
+                        {'reason': str(e.reason), 'path': e.path, 'class': type(e).__name__})
             return
         pos = position_of(root, e.elem)
         if pos is None:
             ctx.failure('error element is not a node of the document', case, {'reason': str(e.reason)})
+            return
+        if e.path is None:
+            ctx.failure('validation error without a path (no reader can locate it)', case,
+                        {'reason': str(e.reason), 'element_position': list(pos)})
             return
         # the path as a user reads it: with the error's own namespaces, through the library's own find
         # (XMLResource.findall), ElementTree's / lxml's findall and an independent evaluator
@@ -1100,6 +1131,10 @@ def explore(ctx: Ctx, drv: Optional[Driver], tabs: Optional[Tables] = None, n_do
                 for parser in ('etree', 'lxml'):
                     case = dict(base, fault=kind, node=list(pos), damaged=list(damaged), nsplan=nsplan, parser=parser,
                                 xml=xml)
+                    if nsk % 5 == 0:
+                        # the validation_hook answers 'lax' (for every element / the damaged node and its parent / its
+                        # ancestor chain): raw_decode continues in a copy of the validation context, same outcome expected
+                        case['hook'] = ['all', 'near', 'chain'][(nsk // 5 + (parser == 'lxml')) % 3]
                     locs[parser]['fault'] = json.loads(json.dumps(mfault).replace('BOGUS', bogus_tag))
                     try:
                         run_case(ctx, case, xml, form, parser, tuple(damaged), reqs, pend, tabs=tabs,
@@ -1483,59 +1518,102 @@ def clone_ns(d: dict) -> dict:
 
 
 # ------------------------------------------------------------------------------------------------
-# XSD 1.1 inheritable attributes: "a single fault is always reported" below an element that carries one
+# XSD 1.1 inheritable attributes (XsdElement.raw_decode continues in a COPY of the validation context below an element
+# that carries one) on elements of every content kind — simple content `s`, empty `z`, mixed `m`, element-only `g`/`r` —
+# and every fault position relative to the carrier: its own text, its own other attributes, the inheritable attribute
+# itself, its children (content model), its descendants; the same with a validation_hook that answers a mode.
+def inh_ser(d: dict) -> str:
+    attrs = ''.join(f' {k}="{v}"' for k, v in d['a'].items())
+    return f"<{d['n']}{attrs}>{d['t'] or ''}{''.join(inh_ser(c) + c.get('tail', '') for c in d['c'])}</{d['n']}>"
+
+
 def inh11_family(ctx: Ctx, drv: Optional[Driver]) -> None:
     rng = ctx.rng
     reqs: list = []
     pend: list = []
 
-    def ser(d: dict) -> str:
-        attrs = ''.join(f' {k}="{v}"' for k, v in d['a'].items())
-        return f"<{d['n']}{attrs}>{d['t'] or ''}{''.join(ser(c) for c in d['c'])}</{d['n']}>"
-    for di in range(ctx.pick(16, 120)):
-        def attrs() -> dict:
-            a = {}
-            if rng.random() < 0.5:
-                a['lang'] = 'en'
-            if rng.random() < 0.5:
-                a['n'] = '3'
-            return a
-        kids = [{'n': 'a', 'a': {}, 't': str(rng.randrange(9)), 'c': []} for _ in range(rng.randrange(1, 4))]
-        kids += [{'n': 'g', 'a': attrs(), 't': None, 'c': [{'n': 'b', 'a': {}, 't': '4', 'c': []}]}
-                 for _ in range(rng.randrange(3))]
+    def attrs() -> dict:
+        a = {}
+        if rng.random() < 0.55:
+            a['lang'] = 'en'
+        if rng.random() < 0.5:
+            a['n'] = '3'
+        return a
+
+    def leaf(n: str) -> dict:
+        return {'n': n, 'a': {}, 't': str(rng.randrange(9)), 'c': []}
+
+    def gen_s() -> dict:
+        return {'n': 's', 'a': attrs(), 't': str(rng.randrange(9)), 'c': []}
+
+    def gen_g(depth: int) -> dict:
+        c = [leaf('b')] + [gen_s() for _ in range(rng.randrange(3))]
+        if rng.random() < 0.5:
+            c.append({'n': 'z', 'a': attrs(), 't': None, 'c': []})
+        if rng.random() < 0.5:
+            mc = [dict(leaf('b'), tail=' words ') for _ in range(rng.randrange(3))] + ([gen_s()] if rng.random() < 0.5 else [])
+            c.append({'n': 'm', 'a': attrs(), 't': 'mixed ', 'c': mc})
+        if depth:
+            c += [gen_g(depth - 1) for _ in range(rng.randrange(2))]
+        return {'n': 'g', 'a': attrs(), 't': None, 'c': c}
+    k = rng.randrange(100)
+    for di in range(ctx.pick(24, 160)):
+        kids = [leaf('a') for _ in range(rng.randrange(1, 3))] + [gen_s() for _ in range(rng.randrange(3))]
+        kids += [gen_g(rng.randrange(3)) for _ in range(rng.randrange(3))]
         doc = {'n': 'r', 'a': attrs(), 't': None, 'c': kids}
-        base = {'doc': f'inh11-{di}', 'form': 'inh11', 'layout': 'none', 'comments': False, 'parser': 'etree'}
-        run_case(ctx, dict(base, fault=None, xml=ser(doc)), ser(doc), 'inh11', 'etree', None, reqs, pend)
-        # (kind, mutated, damaged node, owner = the element whose validation reports the fault, attribute fault?)
+        base = {'doc': f'inh11-{di}', 'form': 'inh11', 'layout': 'none', 'comments': False}
+        vx = inh_ser(doc)
+        for parser, hook in (('etree', None), ('lxml', None), ('etree', 'all')):
+            run_case(ctx, dict(base, fault=None, parser=parser, hook=hook, xml=vx), vx, 'inh11', parser, None, reqs, pend)
+        # (kind, what is damaged, mutated, damaged node, owner = the element whose validation reports the fault)
         faults = []
         for pos, n in nodes(doc):
-            if n['n'] in 'ab':
-                m = clone(doc)
-                at(m, pos)['t'] = 'bad'
-                faults.append(('bad value', m, pos, pos, False))
+            nm = n['n']
+
+            def mut(f) -> dict:
+                m = clone_tail(doc)
+                f(at(m, pos))
+                return m
+            if nm in 'abs':
+                faults.append(('bad value', 'own text', mut(lambda x: x.update(t='bad')), pos, pos))
+            elif nm in 'zgr':                     # empty / element-only content: character data is not allowed
+                faults.append(('bad value', 'own text', mut(lambda x: x.update(t='chars')), pos, pos))
+            if nm in 'ab':
+                faults.append(('extra attribute', 'own attribute', mut(lambda x: x['a'].update(bogus='1')), pos, pos))
                 continue
-            m = clone(doc)
-            at(m, pos)['a']['n'] = 'x9'
-            faults.append(('bad attribute value', m, pos, pos, True))
-            m = clone(doc)
+            faults.append(('bad attribute value', 'own attribute', mut(lambda x: x['a'].update(n='x9')), pos, pos))
+            faults.append(('bad attribute value', 'the inheritable attribute', mut(lambda x: x['a'].update(lang='!!')), pos, pos))
+            faults.append(('extra attribute', 'own attribute', mut(lambda x: x['a'].update(bogus='1')), pos, pos))
             i = rng.randrange(len(n['c']) + 1)
-            at(m, pos)['c'].insert(i, {'n': 'bogus', 'a': {}, 't': None, 'c': []})
-            faults.append(('extra child', m, pos + (i,), pos, False))
-            if n['n'] == 'g':
-                m = clone(doc)
-                del at(m, pos)['c'][0]
-                faults.append(('missing child', m, pos, pos, False))
-        for kind, m, damaged, owner, is_attr in faults:
-            # the errors of the owner are collected in a copied context (and lost, finding C19-F3) iff a proper ancestor
-            # of the owner carries an inheritable attribute, or the owner itself does and the fault is in its content
-            # (the attributes of an element are checked before its context is copied)
-            above = any('lang' in at(m, owner[:k])['a'] for k in range(len(owner))) or \
-                (not is_attr and 'lang' in at(m, owner)['a'])
-            case = dict(base, fault=kind, node=list(owner), damaged=list(damaged), inheritable_above=above, xml=ser(m))
-            ctx.count(f'inheritable family: {kind}, inheritable attribute above: {above}')
-            run_case(ctx, case, case['xml'], 'inh11', 'etree', damaged, reqs, pend)
+            faults.append(('extra child', 'children', mut(lambda x: x['c'].insert(i, {'n': 'bogus', 'a': {}, 't': None, 'c': []})),
+                           pos + (i,), pos))
+            if nm == 'g' or (nm == 'r' and sum(1 for c in n['c'] if c['n'] == 'a') == 1):
+                faults.append(('missing child', 'children', mut(lambda x: x['c'].pop(0)), pos, pos))
+            if nm == 'g' and len(n['c']) >= 2:
+                faults.append(('misplaced child', 'children', mut(lambda x: x['c'].insert(0, x['c'].pop())), pos + (0,), pos))
+        for kind, what, m, damaged, owner in faults:
+            carriers = [j for j in range(len(owner) + 1) if 'lang' in at(m, owner[:j])['a']]
+            rel = 'no carrier above' if not carriers else \
+                f'carrier is the reporting element ({at(m, owner)["n"]}): {what}' if carriers[-1] == len(owner) else \
+                'carrier is the parent' if carriers[-1] == len(owner) - 1 else 'carrier is a farther ancestor'
+            ctx.count(f'inheritable family: {kind} / {rel}')
+            xml = inh_ser(m)
+            k += 1
+            for parser, hook in (('etree', None), ('lxml', None), ('etree', ['all', 'near', 'chain'][k % 3])):
+                case = dict(base, fault=kind, what=what, node=list(owner), damaged=list(damaged), carrier=rel,
+                            parser=parser, hook=hook, xml=xml)
+                run_case(ctx, case, xml, 'inh11', parser, damaged, reqs, pend)
+        if len(ctx.failures) >= 40:
+            break
     if drv is not None:
         compare(ctx, drv, reqs, pend)
+
+
+def clone_tail(d: dict) -> dict:
+    out = {'n': d['n'], 'a': dict(d['a']), 't': d['t'], 'c': [clone_tail(c) for c in d['c']]}
+    if 'tail' in d:
+        out['tail'] = d['tail']
+    return out
 
 
 def renders(ctx: Ctx, drv: Optional[Driver]) -> None:
